@@ -1677,6 +1677,7 @@ def run(ctx):
     from . import shiftsolvers, c16
     c16.shape_predicates(ctx)
     shiftsolvers.complex_shift_backtransform_defined_at_zero(ctx)
+    shiftsolvers.buckling_backtransform_pole(ctx)
     dense_kernel_contracts(ctx)
     packed_storage_contracts(ctx)
     aligned_access_evidence(ctx)
